@@ -6,7 +6,7 @@ OUTSIDE = ["concurrent ALLOCATION paths (arena get_chunk vs get_chunk / release,
            "more than 4 system blocks / histories longer than K", "weak-memory reorderings (SC only)", "element sizes other than the enumerated ones"]
 ASSUMPTIONS = ["system allocator = static pool of 64-byte aligned typed blocks with ownership tracking (data_malloc/data_free stubs)",
                "object system replaced by vp_objstub.h (same algorithm, static tables)", "caller contract: a chunk is released once, by its owner"]
-BOUNDS = {"quick": {"K": 4, "elem_size": [24, 1], "threads": 2, "rounds": 3}, "thorough": {"K": 5, "elem_size": [24, 1, 40, 64]}}
+BOUNDS = {"quick": {"K": "2..3", "elem_size": [24, 1], "threads": 2, "rounds": 3}, "thorough": {"K": "2..3", "elem_size": [24, 1, 40, 64], "rounds": "3..4"}}
 LINK = ["repo:parsec/class/parsec_lifo.c", "repo:parsec/class/parsec_list.c"]
 # no destructor runs in these scenarios; their bodies are removed because CBMC's type-based candidate set for
 # every void(*)(parsec_object_t*) call contains them and they recurse through parsec_obj_run_destructors
@@ -15,7 +15,7 @@ def queries(ctx):
     qs = []
     INC = [ctx.repo + "/parsec"]     # arena.c includes "mca/device/device_gpu.h" relative to its own directory (needed when an overlay copy is compiled)
     for elem in ((24, 1, 40, 64) if ctx.thorough else (24, 1)):
-        for Kk in ((2, 3, 4) if ctx.thorough else (2, 3)):
+        for Kk in (2, 3):     # K = 4 runs out of 11-24 GB for every element size
             qs.append(Q("seq_e%d_k%d" % (elem, Kk), ["ha.c"] + LINK, defs=["ELEM=%d" % elem, "K=%d" % Kk], unwind=6, object_bits=12, timeout=2400, incs=INC, extra_cbmc=["--max-field-sensitivity-array-size", "512"],
                         units=[U, "parsec/arena.h", "parsec/class/lifo.h"], unwind_fn={"main": max(Kk + 1, 4)}, remove_bodies=NODESTRUCT,
                         tiers=("quick", "thorough") if ((Kk == 2 and elem in (24, 1)) or (Kk == 3 and elem == 24)) else ("thorough",), slow=(Kk >= 3),
